@@ -291,6 +291,12 @@ pub fn txs_to_csv_table(txs: &Vec<CsvTx>) -> PlainCsvTable {
 
     // We can avoid outputting some columns if they are entirely empty
     let mut optional_cols_in_use = HashSet::<&'static str>::new();
+    // A blank affiliate cell on a Split row means "all affiliates", so a
+    // split for all affiliates does not need the affiliate column by itself
+    // - unless another split is addressed to the default affiliate, which a
+    // blank cell could then no longer express.
+    let mut has_global_split = false;
+    let mut has_default_split = false;
     for tx in txs {
         if tx.tx_curr_to_local_exchange_rate.is_some() {
             optional_cols_in_use.insert(CsvCol::TX_FX);
@@ -308,10 +314,18 @@ pub fn txs_to_csv_table(txs: &Vec<CsvTx>) -> PlainCsvTable {
             optional_cols_in_use.insert(CsvCol::SPLIT_RATIO);
         }
         if let Some(af) = &tx.affiliate {
-            if *af != Affiliate::default() {
+            let is_split = tx.action == Some(TxAction::Split);
+            if is_split && af.is_global() {
+                has_global_split = true;
+            } else if *af != Affiliate::default() {
                 optional_cols_in_use.insert(CsvCol::AFFILIATE);
+            } else if is_split {
+                has_default_split = true;
             }
         }
+    }
+    if has_global_split && has_default_split {
+        optional_cols_in_use.insert(CsvCol::AFFILIATE);
     }
     let headers: Vec<&'static str> = all_headers
         .iter()
